@@ -46,6 +46,7 @@ def decode_extra(scn: dict, uni: Universe, rel: str):
 
 class C19(Check):
     PROP = "C19"
+    CRASH_ORACLE = "C19.invariance"
     RULE = ("each run = one generated workspace + one logical read (read_namespace of a root with lookups, or read_files of a "
             "target subset) executed three times; between the executions the simulator rewrites, adds or renames files that "
             "the reference model proves to be outside the dependency closure (garbage, every rule violation of the catalogue, "
